@@ -164,6 +164,21 @@ Theorem C11_heap_mem_invalid_free_reported_refuted : ~ heap_mem_invalid_free_rep
 Proof. exact heap_mem_invalid_free_reported_refuted_proof. Qed.
 Print Assumptions C11_heap_mem_invalid_free_reported_refuted.
 
+(* the allocator's own writes never land in a live payload (memory level): after any history, every
+   operation - alloc, dealloc, realloc in place or moving, deallocall, lazy initialisation included -
+   leaves unchanged every 8-byte word that overlaps a block live before and after it (up to the
+   smaller of its two sizes for a realloc in place).  The refinement proof exports that every write
+   goes to one of the four header words of a chunk of the old or of the new state. *)
+Theorem C11_heap_mem_payload_frame : forall c ops s live o s' live',
+  hcfg_ok c -> Forall hop_usize ops -> hop_usize o ->
+  crun c (heap_init_state, []) ops = Some (s, live) ->
+  cstep c (s, live) o = Some (s', live') ->
+  forall b b', In b live -> In b' live' -> b_addr b = b_addr b' ->
+  forall w, b_addr b - 8 < w < b_addr b + Z.min (b_size b) (b_size b') ->
+  mget (h_mem s') w = mget (h_mem s) w.
+Proof. exact heap_mem_payload_frame_proof. Qed.
+Print Assumptions C11_heap_mem_payload_frame.
+
 (* ---------------- heap: payload contents (byte functions, as for the arena) ---------------- *)
 (* realloc keeps the first min(old,new) bytes of the block - also when it moves it (memory.copy of
    the whole old chunk into a fresh, strictly larger chunk) - and every byte of every other live block *)
